@@ -113,6 +113,30 @@ fn do_job(j: &Job) -> JobResult {
         };
         runs.push((s.describe(), obs(&t), tc, t.total_steps));
     }
+    // the API's own loops as further slicings: Runtime::run(), run_with_granularity(n), VmGreenThread::run()
+    let modes: Vec<ApiMode> = if j.class == "single" {
+        vec![ApiMode::Run, ApiMode::Granularity(1), ApiMode::Granularity(7), ApiMode::ThreadRun]
+    } else {
+        // with tasks a blocked read is a busy wait: a huge granularity spins for the whole slice
+        vec![ApiMode::Granularity(37), ApiMode::Granularity(1000)]
+    };
+    for (k, m) in modes.iter().enumerate() {
+        let mut h = prelude_host(&PRELUDE_HOSTS);
+        let t = run_api(&mk, *m, &mut h, 200_000);
+        let tc = if k == modes.len() / 2 && t.api_gran && t.total_steps <= 2500 && t.calls.len() <= 600 && !matches!(t.outcome, Outcome::Crash(_)) {
+            Some(trace_case(&t))
+        } else {
+            None
+        };
+        let mut o = obs(&t);
+        if !t.accessor_issues.is_empty() {
+            o.outcome = format!("{} [accessors: {}]", o.outcome, t.accessor_issues.join("; "));
+        }
+        if t.call_bound_hit {
+            o.outcome = format!("{} [never returned a final status]", o.outcome);
+        }
+        runs.push((format!("api:{:?}", m), o, tc, t.total_steps));
+    }
     JobResult { reference, runs }
 }
 
@@ -198,7 +222,7 @@ fn main() {
             _ => {}
         }
         for (desc, o, tc, steps) in &r.runs {
-            ctx.count(if desc.contains('!') { "sched:delay" } else if desc.starts_with("[]") { "sched:cyclic" } else { "sched:prefix-exhaustive" });
+            ctx.count(if desc.starts_with("api:") { "sched:api-loop" } else if desc.contains('!') { "sched:delay" } else if desc.starts_with("[]") { "sched:cyclic" } else { "sched:prefix-exhaustive" });
             if *o != ro {
                 ctx.spec_fail(format!(
                     "slicing changes the result: schedule {desc}: {:?} vs one big budget: {:?} :: program: {}",
